@@ -363,6 +363,20 @@ def wrapper_discipline(C, R, cfg, state_adts, rule):
         for o, _f in roles.state_structs[sp]['owners']:
             owners.add(o)
     n = 0
+    state_fields = {sp: set(f['name'] for f in F.adt(sp)['variants'][0]['fields']) for sp in state_adts}
+    breached = set()
+    # free helpers that are only ever called from state methods belong to the state layer
+    CG = C.cg(cfg)
+    changed = True
+    while changed:
+        changed = False
+        for fn in F.raw['fns']:
+            if fn['path'] in state_fn_adt or fn['kind'] == 'closure':
+                continue
+            callers = [c for c, _ in CG.callers_of(fn['path'])]
+            if callers and all(c in state_fn_adt for c in callers):
+                state_fn_adt[fn['path']] = state_fn_adt[callers[0]]
+                changed = True
     for fn in F.raw['fns']:
         if fn['path'] in state_fn_adt or fn['kind'] == 'closure':
             continue
@@ -378,6 +392,38 @@ def wrapper_discipline(C, R, cfg, state_adts, rule):
             locks = [e for e in path.events if e['k'] == 'lock' and e['frame'] == own_frame]
             calls = [e for e in path.events if e['k'] == 'call' and e.get('mode') == 'inline'
                      and e['callee'] in state_fn_adt and e['frame'] == own_frame]
+            # direct mutating access to a field of THIS family's lock-protected state from outside the state layer
+            for e in path.events:
+                if e.get('fn') != fn['path'] and (F.fn(e.get('fn') or '') or {}).get('parent') != fn['path']:
+                    continue
+                locs = []
+                if e['k'] in ('write', 'take', 'replace', 'update_waker'):
+                    locs.append(e.get('loc') or e.get('slot'))
+                elif e['k'] == 'qop' and e['op'] not in ('is_empty', 'peek_first', 'peek_last', 'peek_min'):
+                    locs.append(e.get('queue'))
+                elif e['k'] == 'call':
+                    tys = e.get('argtys') or []
+                    for i, a in enumerate(e['args']):
+                        if a[0] == 'ref' and i < len(tys) and tys[i].startswith('&mut'):
+                            if i == 0 and a[1] and a[1][-1] == '<locked>':
+                                continue
+                            locs.append(a[1])
+                for loc in locs:
+                    if not loc or '<locked>' not in loc:
+                        continue
+                    k = loc.index('<locked>')
+                    field = next((x for x in loc[k + 1:] if isinstance(x, str)), None)
+                    for sp in state_adts:
+                        mod = sp.rsplit('::', 1)[0]
+                        if field in state_fields[sp] and fn['path'].lstrip('<').startswith(mod + '::'):
+                            key = (fn['path'], field)
+                            if key not in breached:
+                                breached.add(key)
+                                R.fail(rule, [fn['path'], 'wrapper-reaches-into-state', field],
+                                       '%s mutates `%s` of the lock-protected %s directly instead of calling a state '
+                                       'function: the transitions judged by the path rules are no longer the only '
+                                       'ones' % (fn['path'], field, sp.split('::')[-1]),
+                                       where(F, e) if e.get('ln') else '%s:%s' % (fn['file'], fn['line']))
             if not calls and not locks:
                 continue
             if not calls:
